@@ -26,7 +26,7 @@ func init() {
 		Assumptions: []string{"caller-supplied raw protected bytes are consistent with the parsed map (the API documents raw bytes as taking precedence)", "input model of DESIGN 2.2"},
 		Real:        []string{"github.com/veraison/go-cose", "github.com/fxamacker/cbor/v2", "Go crypto behind the recording signer"},
 		Stubs:       []string{"cose.Signer / cose.Verifier recording wrappers with injectable failure and arbitrary Algorithm()", "foreign peer (reference model)", "entropy source"},
-		QuickRuns:   12000, ThoroughRuns: 400000,
+		QuickRuns:   1000000, ThoroughRuns: 20000000,
 	}
 }
 
